@@ -1,7 +1,7 @@
 (* C08 - cue fmt is idempotent and never changes what a file means (expression
    level; the C07 items about precedence printing and token separation).
    This file contains only statements, closed by [exact], and Print Assumptions. *)
-From Verif Require Import Syn.Lex Syn.LexProofs Syn.Expr Syn.Basics Syn.Proofs Syn.Space Syn.Examples.
+From Verif Require Import Syn.Lex Syn.LexProofs Syn.Expr Syn.Basics Syn.Proofs Syn.Space Syn.Layout Syn.Examples.
 From Coq Require Import List NArith Bool.
 Import ListNotations.
 
@@ -161,6 +161,28 @@ Theorem C08_v2_text_reads_back : forall e, valid e -> v2_safe e = true -> Forall
   scan (render (resolve ch 0 (sp2 MDisp e))) = Some (print2 e) /\ parse (print2 e) = Some (canon e 0).
 Proof. exact v2_text_reads_back. Qed.
 Print Assumptions C08_v2_text_reads_back.
+
+(* the blanks the model leaves to the layout engine (around + - * /) are never needed *)
+Theorem C08_sp1_layout_never_needed : forall e, valid e -> atoms_wf e -> forall q, lay_ok (sp1 e q).
+Proof. exact (fun e V W q => proj1 (sp1_layout_ok e V W q)). Qed.
+Print Assumptions C08_sp1_layout_never_needed.
+
+Theorem C08_sp2_layout_never_needed : forall e, valid e -> atoms_wf e -> forall m, lay_ok (sp2 m e).
+Proof. exact (fun e V W m => proj1 (sp2_layout_ok e V W m)). Qed.
+Print Assumptions C08_sp2_layout_never_needed.
+
+(* hence: whenever the model predicts no hazardous pair, the printed text reads back *)
+Theorem C08_v1_reads_back_when_no_hazard : forall e, valid e -> atoms_wf e -> Forall tok_wf (print1 e) ->
+  hazards (sp1 e 0) = [] -> forall ch,
+  scan (render (resolve ch 0 (sp1 e 0))) = Some (print1 e) /\ parse (print1 e) = Some (canon e 0).
+Proof. exact v1_reads_back_when_no_hazard. Qed.
+Print Assumptions C08_v1_reads_back_when_no_hazard.
+
+Theorem C08_v2_reads_back_when_no_hazard : forall e, valid e -> atoms_wf e -> v2_safe e = true ->
+  Forall tok_wf (print2 e) -> hazards (sp2 MDisp e) = [] -> forall ch,
+  scan (render (resolve ch 0 (sp2 MDisp e))) = Some (print2 e) /\ parse (print2 e) = Some (canon e 0).
+Proof. exact v2_reads_back_when_no_hazard. Qed.
+Print Assumptions C08_v2_reads_back_when_no_hazard.
 
 (* K1: formatter V1 prints `<-1` for `< -1`;  K2: formatter V2 prints `1.a` for `1 .a` *)
 Theorem C08_v1_glues_lss_sub_refuted :
